@@ -231,6 +231,10 @@ def run(ctx):
         c2s(ctx, 250, 30)
     else:
         c2s(ctx, 4000, 600)
+    # whole sessions against System.tla: this check judges the rejections at load / save / re-open events
+    from . import system_common as sysc
+    sessions, verdict = sysc.run_sessions(ctx, 150 if ctx.quick else 3000, ctx.seed + 4)
+    sysc.judge(ctx, "C04", sessions, verdict, sysc.SAVE_OPS, "load / save / re-open lifecycle")
     ctx.exhaustive = True
     ctx.rule = ("S2C: every loadable text of the bounded MC_Load model x 3 format choices x strict/lenient; C2S: "
                 "generated texts (as for C03), corpus files, truncations/splices/mutations of them x the same; "
